@@ -80,6 +80,8 @@ impl TypedArray {
     /// Abstract operation [`IsTypedArrayOutOfBounds ( taRecord )`][spec].
     ///
     /// [spec]: https://tc39.es/ecma262/sec-istypedarrayoutofbounds
+    #[cfg_attr(kani, kani::requires(verif_kani::ta_valid(self) && verif_kani::buf_ok(buf_byte_len)))]
+    #[cfg_attr(kani, kani::ensures(|r| *r == verif_kani::s_oob(self, buf_byte_len)))]
     pub(crate) fn is_out_of_bounds(&self, buf_byte_len: usize) -> bool {
         // Checks when allocating the buffer ensure the length fits inside an `u64`.
         let buf_byte_len = buf_byte_len as u64;
@@ -134,6 +136,8 @@ impl TypedArray {
     ///
     /// [spec]: https://tc39.es/ecma262/#sec-typedarraybytelength
     #[must_use]
+    #[cfg_attr(kani, kani::requires(verif_kani::ta_valid(self) && verif_kani::buf_ok(buf_byte_len)))]
+    #[cfg_attr(kani, kani::ensures(|r| *r as u128 == verif_kani::s_byte_length(self, buf_byte_len)))]
     pub fn byte_length(&self, buf_byte_len: usize) -> u64 {
         // 1. If IsTypedArrayOutOfBounds(taRecord) is true, return 0.
         if self.is_out_of_bounds(buf_byte_len) {
@@ -168,6 +172,8 @@ impl TypedArray {
     ///
     /// [spec]: https://tc39.es/ecma262/#sec-typedarraylength
     #[must_use]
+    #[cfg_attr(kani, kani::requires(verif_kani::ta_valid(self) && verif_kani::buf_ok(buf_byte_len) && !verif_kani::s_oob(self, buf_byte_len)))]
+    #[cfg_attr(kani, kani::ensures(|r| *r as u128 == verif_kani::s_array_length(self, buf_byte_len)))]
     pub fn array_length(&self, buf_byte_len: usize) -> u64 {
         // 1. Assert: IsTypedArrayOutOfBounds(taRecord) is false.
         debug_assert!(!self.is_out_of_bounds(buf_byte_len));
@@ -229,6 +235,9 @@ impl TypedArray {
     ///
     /// Note: if this is only used for bounds checking, it is recommended to use
     /// the `Ordering::Relaxed` ordering to get the buffer slice.
+    #[cfg_attr(kani, kani::requires(verif_kani::ta_valid(self) && verif_kani::buf_ok(buf_len)))]
+    #[cfg_attr(kani, kani::ensures(|r| *r == verif_kani::s_validate_index(self, index, buf_len)))]
+    #[cfg_attr(kani, kani::ensures(|r| r.is_none_or(|i| verif_kani::elem_in_buffer(self, i, buf_len))))]
     pub(crate) fn validate_index(&self, index: f64, buf_len: usize) -> Option<u64> {
         // 2. If IsIntegralNumber(index) is false, return false.
         if index.is_nan() || index.is_infinite() || index.fract() != 0.0 {
@@ -262,6 +271,9 @@ impl TypedArray {
     /// This is an optimized variant of [`validate_index`](Self::validate_index) for cases where
     /// the index is already known to be a non-negative integer (`u64`), skipping the redundant
     /// checks for `NaN`, infinity, fractional values, and negative zero.
+    #[cfg_attr(kani, kani::requires(verif_kani::ta_valid(self) && verif_kani::buf_ok(buf_len)))]
+    #[cfg_attr(kani, kani::ensures(|r| *r == verif_kani::s_validate_index_u64(self, index, buf_len)))]
+    #[cfg_attr(kani, kani::ensures(|r| r.is_none_or(|i| verif_kani::elem_in_buffer(self, i, buf_len))))]
     pub(crate) fn validate_index_u64(&self, index: u64, buf_len: usize) -> Option<u64> {
         // 1. If IsTypedArrayOutOfBounds(taRecord) is true, return false.
         if self.is_out_of_bounds(buf_len) {
@@ -776,3 +788,7 @@ pub(crate) fn typed_array_set_element(
     // 4. Return unused.
     Ok(())
 }
+
+#[cfg(kani)]
+#[path = "/verif/kani/engine/ta_object.rs"]
+mod verif_kani;
